@@ -289,19 +289,60 @@ fn long_strings(d: &FmtDesc, ec: u8) -> Vec<Vec<u8>> {
     // exact halfway strings of f64 in radix 10 (3 binades): big-integer / slow paths through the
     // skipping iterators
     if d.mantissa_radix == 10 && d.exponent_base == 10 {
-        for bits in [0x3ff0000000000000u64, 0x4340000000000000, 0x0010000000000001] {
-            if let Some((ds, q)) = gen::midpoint_expansion(vkit::float::F64, bits, 10) {
+        let mids: Vec<(vkit::float::Fmt, u64)> = vec![
+            (vkit::float::F64, 0x3ff0000000000000),
+            (vkit::float::F64, 0x3ff0000000000001),
+            (vkit::float::F64, 0x3fb999999999999a),
+            (vkit::float::F64, 0x4340000000000000),
+            (vkit::float::F64, 0x4340000000000001),
+            (vkit::float::F64, 0x0010000000000001),
+            (vkit::float::F32, 0x3f800000),
+            (vkit::float::F32, 0x3f800001),
+            (vkit::float::F32, 0x3dcccccd),
+            (vkit::float::F32, 0x4b800000),
+        ];
+        for (fm, bits) in mids {
+            if let Some((ds, q)) = gen::midpoint_expansion(fm, bits, 10) {
+                // integer significand with exponent
                 if ds.len() < 120 {
                     let mut s = ds.clone();
                     s.push(ec);
                     s.extend(format!("{}", q).as_bytes());
                     v.push(s);
-                } else {
-                    // positional with a point after the first digit
-                    let mut s = vec![ds[0], b'.'];
-                    s.extend_from_slice(&ds[1..]);
-                    s.push(ec);
-                    s.extend(format!("{}", q + ds.len() as i64 - 1).as_bytes());
+                }
+                // point after the first digit, with exponent
+                let mut s = vec![ds[0], b'.'];
+                s.extend_from_slice(&ds[1..]);
+                if ds.len() == 1 {
+                    s.push(b'0');
+                }
+                s.push(ec);
+                s.extend(format!("{}", q + ds.len() as i64 - 1).as_bytes());
+                v.push(s);
+                // plain positional spelling (point inside or just before the digits), with a trailing 0 and 00
+                let k = -q; // fraction digits
+                if k > 0 && k < 120 && ds.len() < 120 {
+                    let k = k as usize;
+                    let mut s: Vec<u8> = Vec::new();
+                    if ds.len() > k {
+                        s.extend_from_slice(&ds[..ds.len() - k]);
+                        s.push(b'.');
+                        s.extend_from_slice(&ds[ds.len() - k..]);
+                    } else {
+                        s.extend_from_slice(b"0.");
+                        s.extend(std::iter::repeat(b'0').take(k - ds.len()));
+                        s.extend_from_slice(&ds);
+                    }
+                    v.push(s.clone());
+                    s.push(b'0');
+                    v.push(s.clone());
+                    s.extend_from_slice(b"00");
+                    v.push(s);
+                } else if q >= 0 && ds.len() < 40 {
+                    // integer midpoint: digits.000
+                    let mut s = ds.clone();
+                    s.extend(std::iter::repeat(b'0').take(q as usize));
+                    s.extend_from_slice(b".000");
                     v.push(s);
                 }
             }
